@@ -438,11 +438,17 @@ class KindInferenceMapper(Mapper):
 
     def map_subscript(self, expr):
         agg_kind = self.rec(expr.aggregate)
-        if self.check and not isinstance(agg_kind, Array):
-            raise ValueError(
-                    "only arrays can be subscripted, not '%s' "
-                    "which is a '%s'"
-                    % (expr.aggregate, type(agg_kind).__name__))
+        if not isinstance(agg_kind, Array):
+            if self.check:
+                raise ValueError(
+                        "only arrays can be subscripted, not '%s' "
+                        "which is a '%s'"
+                        % (expr.aggregate, type(agg_kind).__name__))
+            else:
+                # The kind of the aggregate may still be provisional.
+                raise UnableToInferKind(
+                        "'%s' is not (yet) known to be an array"
+                        % expr.aggregate)
 
         return Scalar(is_real_valued=agg_kind.is_real_valued)
 
@@ -501,6 +507,11 @@ class SymbolKindFinder:
             while stmt_queue or stmt_queue_push_buffer:
                 if not stmt_queue:
                     # {{{ provide a usable error message if no progress
+
+                    if not made_progress and result.is_changed():
+                        # Kinds changed in this sweep: what is still
+                        # left over may go through in the next one.
+                        break
 
                     if not made_progress:
                         print("Left-over statements in kind inference:")
